@@ -10,6 +10,10 @@ impl NodeId {
         }
 
         NODE_ID.with(|x| {
+            #[cfg(cormacrelf_incremental_rs_verif)]
+            if crate::verif::take_node_id_reset() {
+                x.set(0);
+            }
             let next = x.get() + 1;
             x.set(next);
             NodeId(next)
